@@ -271,6 +271,12 @@ class Ctx:
     def violation(self, fingerprint, what, replay=None, found_input=True):
         self.violations.append(dict(fingerprint=fingerprint, what=what, replay=replay, found_input=found_input))
 
+    def n_new(self):
+        """violations that are not listed as known findings (used for early exit)"""
+        if not hasattr(self, '_known'):
+            self._known = {f['fingerprint'] for f in load_findings() if f['property'] == self.prop and f['status'] == 'known'}
+        return sum(1 for v in self.violations if v['fingerprint'] not in self._known)
+
     def broken(self, name, detail=''):
         self.build_broken.append(dict(name=name, detail=detail[:4000]))
 
